@@ -79,6 +79,20 @@ Check inline_pk_survives_refuted :
   /\ c02_holds true ipk_base ipk_plan = false
   /\ known_C02_inline_pk_survives ipk_base ipk_plan = true.
 
+(* a foreign key added before the primary key it references: refused by the engine model with foreign_keys=ON only *)
+Theorem reference_before_key_refuted_sqlite :
+  (exists s', apply_all rbk_base rbk_plan = Ok s')
+  /\ first_error true rbk_base rbk_plan = Some (1%nat, EForeignKey "item_temp")
+  /\ c02_holds false rbk_base rbk_plan = true
+  /\ known_C02_reference_before_key rbk_base rbk_plan = true.
+Proof. exact reference_before_key_refuted. Qed.
+Print Assumptions reference_before_key_refuted_sqlite.
+Check reference_before_key_refuted_sqlite :
+  (exists s', apply_all rbk_base rbk_plan = Ok s')
+  /\ first_error true rbk_base rbk_plan = Some (1%nat, EForeignKey "item_temp")
+  /\ c02_holds false rbk_base rbk_plan = true
+  /\ known_C02_reference_before_key rbk_base rbk_plan = true.
+
 
 (* ================= the positive side: theorems that hold for all inputs ================= *)
 
